@@ -304,3 +304,71 @@ def policy_case(ctx, case):
             env.step(td)
             sh.observe(td, a, "step")
             ctx.count("c09_policy_steps", B)
+
+
+def batch_independence_case(ctx, case):
+    """C04 for the improvement envs: the move mask of a row, and what a move does to it, must be the same whether the row is
+    stepped alone or inside a batch (other rows selecting other pairs / moves)."""
+    cfg, B, seed = case["cfg"], case["B"], case["s"]
+    env, pdp = make_env(cfg)
+    torch.manual_seed(seed)
+    td = env.reset(batch_size=[B])
+    for _ in range(case.get("warm", 2)):
+        td.set("action", env._random_action(td))
+        td = env.step(td)["next"]
+    g = torch.Generator().manual_seed(seed)
+    n = td["rec_current"].shape[-1]
+    sig = dict(env=cfg["env"], k=cfg.get("k"), context="batched", q="mask")
+    ctx.count("episodes")
+    for rep in range(case.get("reps", 3)):
+        if pdp:
+            sel = torch.randint(1, n // 2 + 1, (B, 1), generator=g)  # one removed pair per row (column-shaped, as the policies pass it)
+            m_b = env.get_mask(sel, td)
+        else:
+            sel = None
+            m_b = env.get_mask(td)
+        acts = []
+        for b in range(B):
+            solo = td[b : b + 1].clone()
+            m_s = env.get_mask(sel[b : b + 1], solo)[0] if pdp else env.get_mask(solo)[0]
+            ctx.evaluation()
+            ctx.count("c04_context_comparisons")
+            ctx.count("c04_ctx_improvement_mask")
+            if m_s.shape != m_b[b].shape or not torch.equal(m_s, m_b[b]):
+                ctx.violation(dict(sig), f"row {b}: the move mask inside a batch of {B} differs from the mask of the same state alone in {int((m_s != m_b[b]).sum())} entries", dict(B=B, row=b, n=n))
+                return
+            ij = torch.nonzero(m_s)
+            pick = ij[int(torch.randint(0, ij.shape[0], (1,), generator=g))] if ij.shape[0] else torch.zeros(m_s.dim(), dtype=torch.long)
+            acts.append(torch.cat((sel[b] - 1, pick)) if pdp else pick)
+        a = torch.stack(acts)
+        if not pdp and cfg.get("k", 2) > 2:
+            # k-opt action format: k_max node indices; a 2-exchange is encoded in the first two slots, the rest closes early
+            full = torch.zeros(B, cfg["k"], dtype=torch.long)
+            full[:, :2] = a
+            full[:, 2:] = a[:, :1]
+            a = full
+        tb = td.clone()
+        tb.set("action", a)
+        try:
+            tb = env.step(tb)["next"]
+        except Exception:
+            return
+        for b in range(B):
+            ts = td[b : b + 1].clone()
+            ts.set("action", a[b : b + 1])
+            try:
+                ts = env.step(ts)["next"]
+            except Exception as e:
+                ctx.evaluation()
+                ctx.violation(dict(sig, q="solo_raises", exc=type(e).__name__), f"stepping one row alone raised {type(e).__name__}: {str(e)[:160]}", None)
+                return
+            ctx.evaluation()
+            ctx.count("c04_ctx_improvement_step")
+            for k_ in ("rec_current", "rec_best", "cost_current", "cost_bsf"):
+                x, y = ts[k_][0], tb[k_][b]
+                same = torch.equal(x, y) if x.dtype in (torch.long, torch.int64, torch.bool) else torch.allclose(x, y, rtol=1e-6, atol=1e-6)
+                if not same:
+                    ctx.violation(dict(sig, q="state_after_move", key=k_), f"row {b}: '{k_}' after the same move differs between the batched and the solo execution", dict(B=B, row=b))
+                    return
+            ctx.nontrivial_case(dict(r=td["rec_current"][b].tolist(), a=a[b].tolist()))
+        td = tb
